@@ -1255,6 +1255,9 @@ func valueIdentical(a, b Value) bool {
 		return ok && x.NonNil == y.NonNil
 	case *Opaque:
 		return true
+	case *LazyRows:
+		y, ok := b.(*LazyRows)
+		return ok && x == y
 	case *Iface:
 		y, ok := b.(*Iface)
 		return ok && x.Opaque == y.Opaque && typesEq(x.T, y.T) && (x.V == nil && y.V == nil || valueIdentical(x.V, y.V))
